@@ -197,3 +197,250 @@ Proof.
   cbv beta iota. rewrite !flat_map_app, zip_payload.
   destruct (ends_with_slash prefix); reflexivity.
 Qed.
+
+(* ---------------------------------------------------------------- literal path filters: eager selection = lazy selection *)
+Lemma bytes_eq_refl a : bytes_eq a a = true.
+Proof. induction a as [|x a IH]; cbn; [reflexivity|]. now rewrite N.eqb_refl. Qed.
+
+Lemma has_prefix_app s a b : has_prefix s (a ++ b) = true -> has_prefix s a = true.
+Proof.
+  revert s; induction a as [|x a IH]; intros s H; [destruct s; reflexivity|].
+  destruct s as [|y s]; cbn [app has_prefix] in *; [discriminate|].
+  apply andb_true_iff in H as [H1 H2]. rewrite H1. cbn [andb]. now apply IH.
+Qed.
+
+Lemma has_prefix_self a b : has_prefix (a ++ b) a = true.
+Proof. induction a as [|x a IH]; cbn [app has_prefix]; [destruct b; reflexivity|]. now rewrite N.eqb_refl. Qed.
+
+Lemma has_prefix_inv s p : has_prefix s p = true -> exists r, s = p ++ r.
+Proof.
+  revert s; induction p as [|y p IH]; intros s H; [exists s; reflexivity|].
+  destruct s as [|x s]; cbn [has_prefix] in H; [discriminate|].
+  apply andb_true_iff in H as [H1 H2]. apply N.eqb_eq in H1. subst. destruct (IH s H2) as [r ->]. now exists r.
+Qed.
+
+Definition under (p q : bytes) : bool := has_prefix q (p ++ [SLASH]).
+
+Lemma under_trans a b c : under a b = true -> under b c = true -> under a c = true.
+Proof.
+  unfold under. intros H1 H2. apply has_prefix_inv in H1 as [r1 ->]. apply has_prefix_inv in H2 as [r2 ->].
+  rewrite <- !app_assoc. rewrite (app_assoc a [SLASH]). apply has_prefix_self.
+Qed.
+
+(* two "directory prefixes" of the same path are comparable *)
+Lemma under_comparable q : forall a b,
+  under a q = true -> under b q = true -> a = b \/ under a b = true \/ under b a = true.
+Proof.
+  unfold under. induction q as [|x q IH]; intros a b Ha Hb.
+  - destruct a; discriminate.
+  - destruct a as [|y a], b as [|z b]; cbn [app has_prefix] in *.
+    + now left.
+    + right. left. apply andb_true_iff in Ha as [A _]. apply andb_true_iff in Hb as [B _].
+      apply N.eqb_eq in A, B. subst. rewrite N.eqb_refl. destruct b; reflexivity.
+    + right. right. apply andb_true_iff in Ha as [A _]. apply andb_true_iff in Hb as [B _].
+      apply N.eqb_eq in A, B. subst. rewrite N.eqb_refl. destruct a; reflexivity.
+    + apply andb_true_iff in Ha as [A1 A2]. apply andb_true_iff in Hb as [B1 B2].
+      apply N.eqb_eq in A1, B1. subst. rewrite N.eqb_refl. cbn [andb].
+      destruct (IH a b A2 B2) as [->|[H|H]]; auto.
+Qed.
+
+Definition paths (base : bytes) (f : forest) : list bytes := map fst (walk base f).
+Definition is_nil {A} (b : list A) : bool := match b with [] => true | _ => false end.
+
+Fixpoint names_ok (f : forest) : bool :=
+  match f with
+  | FNil => true
+  | FCons name n rest => negb (is_nil name) && (match n with NDir sub => names_ok sub | _ => true end) && names_ok rest
+  end.
+
+(* every filter lying below a directory names something inside it; none lies below a file *)
+Fixpoint fits (fs : list bytes) (base : bytes) (f : forest) : bool :=
+  match f with
+  | FNil => true
+  | FCons name n rest =>
+    let p := join base name in
+    (match n with
+     | NDir sub => forallb (fun flt => negb (under p flt) || existsb (bytes_eq flt) (paths p sub)) fs && fits fs p sub
+     | _ => forallb (fun flt => negb (under p flt)) fs
+     end) && fits fs base rest
+  end.
+
+Lemma join_nonempty base name : name <> [] -> join base name <> [].
+Proof. unfold join. destruct base; [auto|discriminate]. Qed.
+
+Lemma join_under base name : base <> [] -> under base (join base name) = true.
+Proof.
+  intros H. unfold under, join. destruct base as [|c b]; [easy|].
+  replace ((c :: b) ++ SLASH :: name) with (((c :: b) ++ [SLASH]) ++ name) by now rewrite <- app_assoc.
+  apply has_prefix_self.
+Qed.
+
+Lemma walk_under f : forall base q, base <> [] -> names_ok f = true -> In q (paths base f) -> under base q = true.
+Proof.
+  induction f as [e d|t| |sub IHs| |name n IHn rest IH] using forest_mut
+    with (P := fun n => match n with
+                        | NDir sub => forall base q, base <> [] -> names_ok sub = true -> In q (paths base sub) -> under base q = true
+                        | _ => True end);
+    try exact I.
+  - exact IHs.
+  - intros base q _ _ [].
+  - intros base q Hb Hn Hq. cbn [names_ok] in Hn. apply andb_true_iff in Hn as [Hn Hrest]. apply andb_true_iff in Hn as [Hname Hsub].
+    unfold paths in Hq. cbn [walk map] in Hq. rewrite map_app in Hq. destruct Hq as [<-|Hq].
+    + now apply join_under.
+    + apply in_app_or in Hq as [Hq|Hq].
+      * destruct n as [e d|t| |sub]; try (destruct Hq).
+        assert (Hp : join base name <> []) by (apply join_nonempty; destruct name; [discriminate|discriminate]).
+        apply (under_trans base (join base name)); [now apply join_under|]. now apply (IHn (join base name) q Hp Hsub).
+      * now apply (IH base q Hb Hrest).
+Qed.
+
+Lemma has_leaf_walk f : forall base, has_leaf f = true -> walk base f <> [].
+Proof. intros base H. destruct f; [discriminate|]. cbn [walk]. discriminate. Qed.
+
+Lemma filter_all {A} (p : A -> bool) l : (forall x, In x l -> p x = true) -> filter p l = l.
+Proof.
+  induction l as [|x l IH]; intros H; [reflexivity|]. cbn [filter]. rewrite (H x (or_introl eq_refl)).
+  f_equal. apply IH. intros y Hy. apply H. now right.
+Qed.
+
+Lemma filter_nonempty {A} (p : A -> bool) l x : In x l -> p x = true -> filter p l <> [].
+Proof.
+  intros Hi Hp E. assert (In x (filter p l)) by (apply filter_In; auto). rewrite E in H. destruct H.
+Qed.
+
+Lemma filter_empty_none {A} (p : A -> bool) l : filter p l <> [] -> exists x, In x l /\ p x = true.
+Proof.
+  induction l as [|x l IH]; [easy|]. cbn [filter]. destruct (p x) eqn:E.
+  - intros _. exists x. split; [now left|exact E].
+  - intros H. destruct (IH H) as (y & Hy & Py). exists y. split; [now right|exact Py].
+Qed.
+
+(* the directory p is selected by go-git exactly when something below it is *)
+Lemma dir_selected fs p sub :
+  p <> [] -> names_ok sub = true -> has_leaf sub = true ->
+  forallb (fun flt => negb (under p flt) || existsb (bytes_eq flt) (paths p sub)) fs = true ->
+  (matches p fs = true <-> filter (fun pn => matches (fst pn) fs) (walk p sub) <> []).
+Proof.
+  intros Hp Hn Hl Hfit. split.
+  - unfold matches at 1. intros H. apply existsb_exists in H as (flt & Hin & Hm).
+    unfold matches1 in Hm. apply orb_true_iff in Hm as [Hm|Hm3]; [apply orb_true_iff in Hm as [Hm1|Hm2]|].
+    + (* p == flt *)
+      apply bytes_eq_eq in Hm1. subst flt. rewrite filter_all; [now apply has_leaf_walk|].
+      intros [q n] Hq. cbn [fst]. unfold matches. apply existsb_exists. exists p. split; [exact Hin|].
+      unfold matches1. assert (U : under p q = true) by (apply (walk_under sub p q Hp Hn); unfold paths; now apply (in_map fst) in Hq).
+      unfold under in U. now rewrite U, orb_true_r.
+    + rewrite filter_all; [now apply has_leaf_walk|].
+      intros [q n] Hq. cbn [fst]. unfold matches. apply existsb_exists. exists flt. split; [exact Hin|].
+      unfold matches1. assert (U : under p q = true) by (apply (walk_under sub p q Hp Hn); unfold paths; now apply (in_map fst) in Hq).
+      assert (U2 : under flt q = true) by (apply (under_trans flt p q); [exact Hm2|exact U]).
+      unfold under in U2. now rewrite U2, orb_true_r.
+    + (* the filter lies below p: it names an entry of the sub-tree *)
+      rewrite forallb_forall in Hfit. specialize (Hfit flt Hin). unfold under in Hfit. rewrite Hm3 in Hfit. cbn [negb orb] in Hfit.
+      apply existsb_exists in Hfit as (q & Hq & Hb). apply bytes_eq_eq in Hb. subst q.
+      unfold paths in Hq. apply in_map_iff in Hq as ([q n] & E & Hq). cbn [fst] in E. subst q.
+      apply (filter_nonempty _ _ (flt, n) Hq). cbn [fst]. unfold matches. apply existsb_exists. exists flt. split; [exact Hin|].
+      unfold matches1. now rewrite bytes_eq_refl.
+  - intros H. apply filter_empty_none in H as ([q n] & Hq & Hm). cbn [fst] in Hm.
+    assert (U : under p q = true) by (apply (walk_under sub p q Hp Hn); unfold paths; now apply (in_map fst) in Hq).
+    unfold matches in Hm. apply existsb_exists in Hm as (flt & Hin & Hm).
+    unfold matches. apply existsb_exists. exists flt. split; [exact Hin|]. unfold matches1 in *.
+    apply orb_true_iff in Hm as [Hm|Hm3]; [apply orb_true_iff in Hm as [Hm1|Hm2]|].
+    + apply bytes_eq_eq in Hm1. subst flt. unfold under in U. now rewrite U, orb_true_r.
+    + destruct (under_comparable q p flt U Hm2) as [->|[H1|H2]].
+      * now rewrite bytes_eq_refl.
+      * unfold under in H1. now rewrite H1, orb_true_r.
+      * unfold under in H2. now rewrite H2, orb_true_r.
+    + assert (U3 : under p flt = true) by (apply (under_trans p q flt); [exact U|exact Hm3]).
+      unfold under in U3. now rewrite U3, orb_true_r.
+Qed.
+
+Lemma filtered_lazy prefix fs f : forall base,
+  fs <> [] -> forallb (fun flt => negb (ends_with_slash flt)) fs = true ->
+  names_ok f = true -> dirs_ok f = true -> fits fs base f = true -> (base = [] \/ base <> []) ->
+  map (tar_entry prefix) (filter (fun pn => matches (fst pn) fs) (walk base f)) = git_walk git_tar_mode prefix fs base f.
+Proof.
+  induction f as [e d|t| |sub IHs| |name n IHn rest IH] using forest_mut
+    with (P := fun n => match n with
+                        | NDir sub => forall base, fs <> [] -> forallb (fun flt => negb (ends_with_slash flt)) fs = true ->
+                            names_ok sub = true -> dirs_ok sub = true -> fits fs base sub = true -> (base = [] \/ base <> []) ->
+                            map (tar_entry prefix) (filter (fun pn => matches (fst pn) fs) (walk base sub)) = git_walk git_tar_mode prefix fs base sub
+                        | _ => True end);
+    try exact I.
+  - exact IHs.
+  - reflexivity.
+  - intros base Hfs Hsl Hn Hd Hfit Hb.
+    cbn [names_ok] in Hn. apply andb_true_iff in Hn as [Hn Hnrest]. apply andb_true_iff in Hn as [Hname Hnsub].
+    cbn [dirs_ok] in Hd. apply andb_true_iff in Hd as [Hdn Hdrest].
+    cbn [fits] in Hfit. apply andb_true_iff in Hfit as [Hfn Hfrest].
+    assert (Hp : join base name <> []) by (apply join_nonempty; destruct name; [discriminate|discriminate]).
+    cbn [walk git_walk]. cbn [filter fst]. rewrite filter_app.
+    rewrite <- (IH base Hfs Hsl Hnrest Hdrest Hfrest Hb).
+    destruct n as [e d|t| |sub].
+    1-3: (assert (M : matches (join base name) fs = git_sel fs (join base name));
+          [apply match_file_agree; [|exact Hfs];
+           rewrite forallb_forall in Hsl, Hfn |- *; intros flt Hin; rewrite (Hsl flt Hin); cbn [andb]; exact (Hfn flt Hin)|];
+          rewrite M; cbn [filter app]; destruct (git_sel fs (join base name)); cbn [map app]; [now rewrite tar_entry_git|reflexivity]).
+    apply andb_true_iff in Hdn as [Hleaf Hdsub]. apply andb_true_iff in Hfn as [Hfdir Hfsub].
+    pose proof (dir_selected fs (join base name) sub Hp Hnsub Hleaf Hfdir) as DS.
+    rewrite <- (IHn (join base name) Hfs Hsl Hnsub Hdsub Hfsub (or_intror Hp)).
+    destruct (matches (join base name) fs) eqn:M.
+    + assert (NE : filter (fun pn => matches (fst pn) fs) (walk (join base name) sub) <> []) by now apply DS.
+      rewrite map_cons, map_app, tar_entry_git.
+      destruct (filter (fun pn => matches (fst pn) fs) (walk (join base name) sub)) eqn:F; [easy|]. reflexivity.
+    + assert (E : filter (fun pn => matches (fst pn) fs) (walk (join base name) sub) = []).
+      { destruct (filter (fun pn => matches (fst pn) fs) (walk (join base name) sub)) eqn:F; [reflexivity|].
+        destruct DS as [_ DS2]. assert (X : false = true) by (apply DS2; discriminate). discriminate X. }
+      rewrite E. reflexivity.
+Qed.
+
+Definition filters_ok (fs : list bytes) (f : forest) : bool :=
+  negb (is_nil fs) && forallb (fun flt => negb (is_nil flt) && negb (ends_with_slash flt)) fs &&
+  forallb (fun flt => existsb (bytes_eq flt) (paths [] f)) fs && fits fs [] f.
+
+Lemma strip_slash_noop flt : ends_with_slash flt = false -> strip_slash flt = flt.
+Proof. apply strip_slash_id. Qed.
+
+Lemma tar_filtered_eq commit prefix fs f :
+  names_ok f = true -> dirs_ok f = true -> links_ok f = true -> prefix_ok prefix = true -> filters_ok fs f = true ->
+  tar_entries commit prefix fs f = git_archive_entries false commit prefix fs f.
+Proof.
+  intros Hn Hd Hl Hp Hf. unfold filters_ok in Hf.
+  apply andb_true_iff in Hf as [Hf Hfit]. apply andb_true_iff in Hf as [Hf Hex]. apply andb_true_iff in Hf as [Hne Hshape].
+  assert (Hfs : fs <> []) by (destruct fs; [discriminate|discriminate]).
+  assert (Hsl : forallb (fun flt => negb (ends_with_slash flt)) fs = true).
+  { rewrite forallb_forall in Hshape |- *. intros x Hx. specialize (Hshape x Hx). now apply andb_true_iff in Hshape as [_ ?]. }
+  unfold tar_entries, git_archive_entries, selected.
+  destruct fs as [|f0 fs0]; [easy|]. set (fs := f0 :: fs0) in *.
+  (* links *)
+  assert (LK : existsb link_too_long (filter (fun pn => matches (fst pn) fs) (walk [] f)) = false).
+  { unfold links_ok in Hl. apply negb_true_iff in Hl.
+    destruct (existsb link_too_long (filter (fun pn => matches (fst pn) fs) (walk [] f))) eqn:X; [|reflexivity].
+    apply existsb_exists in X as (x & Hx & Lx). apply filter_In in Hx as [Hx _].
+    assert (existsb link_too_long (walk [] f) = true) by (apply existsb_exists; eauto). congruence. }
+  rewrite LK.
+  (* every filter names an entry: something is selected, and git's path_exists holds *)
+  assert (SEL : filter (fun pn => matches (fst pn) fs) (walk [] f) <> []).
+  { rewrite forallb_forall in Hex. specialize (Hex f0 (or_introl eq_refl)).
+    apply existsb_exists in Hex as (q & Hq & Hb). apply bytes_eq_eq in Hb. subst q.
+    unfold paths in Hq. apply in_map_iff in Hq as ([q n] & E & Hq). cbn [fst] in E. subst q.
+    apply (filter_nonempty _ _ (f0, n) Hq). cbn [fst]. unfold matches. apply existsb_exists. exists f0. split; [now left|].
+    unfold matches1. now rewrite bytes_eq_refl. }
+  assert (EMP : existsb (fun flt => match flt with [] => true | _ => false end) fs = false).
+  { destruct (existsb (fun flt => match flt with [] => true | _ => false end) fs) eqn:X; [|reflexivity].
+    apply existsb_exists in X as (x & Hx & Ex). rewrite forallb_forall in Hshape. specialize (Hshape x Hx).
+    apply andb_true_iff in Hshape as [A _]. destruct x; [discriminate A|discriminate Ex]. }
+  rewrite EMP.
+  assert (PE : forallb (git_path_exists f) fs = true).
+  { rewrite forallb_forall. intros flt Hin. rewrite forallb_forall in Hex, Hsl. specialize (Hex flt Hin). specialize (Hsl flt Hin).
+    apply negb_true_iff in Hsl. apply existsb_exists in Hex as (q & Hq & Hb). apply bytes_eq_eq in Hb. subst q.
+    unfold paths in Hq. apply in_map_iff in Hq as ([q n] & E & Hq). cbn [fst] in E. subst q.
+    unfold git_path_exists. apply existsb_exists. exists (flt, n). split; [exact Hq|]. cbn [fst snd].
+    destruct n; unfold git_match_file, git_match_dir; rewrite ?(strip_slash_id _ Hsl), bytes_eq_refl; reflexivity. }
+  rewrite PE. cbn [negb].
+  rewrite <- (filtered_lazy prefix fs f [] Hfs Hsl Hn Hd Hfit (or_introl eq_refl)).
+  unfold prefix_ok in Hp. apply andb_true_iff in Hp as [_ Hp].
+  destruct (filter (fun pn => matches (fst pn) fs) (walk [] f)) eqn:W; [easy|]. f_equal. f_equal.
+  destruct prefix as [|c r]; [reflexivity|].
+  cbn [negb andb]; destruct (ends_with_slash (c :: r)); [|reflexivity].
+  cbn [negb orb] in Hp; apply bytes_eq_eq in Hp; rewrite Hp; now rewrite (proj2 (proj2 (proj2 (proj2 tar_modes)))).
+Qed.
